@@ -217,9 +217,39 @@ def install():
     eng.threading = _ThreadingShim()
     control.time = _TimeShim()
     monitor.MonitorExceptionTracker.defaultTracker = classmethod(lambda cls: _Tracker())
+    install_config_cache()
+    _installed = True
+
+
+_cache_installed = False
+
+
+def install_config_cache():
+    """The (opt-in, see _cache_on) cache of ComponentSpecification.configuration; idempotent."""
+    global _cache_installed
+    if _cache_installed:
+        return
     import experiment.model.graph as G
     G.ComponentSpecification.configuration = property(_cached_configuration(G.ComponentSpecification.configuration.fget))
-    _installed = True
+    _cache_installed = True
+
+
+def build_experiment(scratch, configs, default_hook_on_disk):
+    """One real Experiment with one component per spec configuration and the hook files in <instance>/hooks.
+    -> (experiment, {configuration id: Job})"""
+    comps = [flowir_component("c%d" % c["id"], c) for c in configs]
+    exp = realenv.experiment_from_flowir({"components": comps}, scratch)
+    hooks = os.path.join(exp.instanceDirectory.location, "hooks")
+    os.makedirs(hooks, exist_ok=True)
+    names = [HOOK_NAMED] + ([HOOK_DEFAULT] if default_hook_on_disk else [])
+    for n in names:
+        with open(os.path.join(hooks, n), "w") as f:
+            f.write(HOOK_SOURCE)
+    for n in (HOOK_ABSENT,) + (() if default_hook_on_disk else (HOOK_DEFAULT,)):
+        if os.path.exists(os.path.join(hooks, n)):
+            raise RuntimeError("hook %s must not exist" % n)
+    jobs = {int(job.name[1:]): job for job in exp._stages[0].jobs()}
+    return exp, jobs
 
 
 def flowir_component(name, cfg):
@@ -249,21 +279,8 @@ class World:
     def __init__(self, scratch, configs, default_hook_on_disk):
         install()
         self.configs = {c["id"]: c for c in configs}
-        comps = [flowir_component("c%d" % c["id"], c) for c in configs]
-        self.exp = realenv.experiment_from_flowir({"components": comps}, scratch)
-        self.hooks = os.path.join(self.exp.instanceDirectory.location, "hooks")
-        os.makedirs(self.hooks, exist_ok=True)
-        names = [HOOK_NAMED] + ([HOOK_DEFAULT] if default_hook_on_disk else [])
-        for n in names:
-            with open(os.path.join(self.hooks, n), "w") as f:
-                f.write(HOOK_SOURCE)
-        for n in (HOOK_ABSENT,) + (() if default_hook_on_disk else (HOOK_DEFAULT,)):
-            if os.path.exists(os.path.join(self.hooks, n)):
-                raise RuntimeError("hook %s must not exist" % n)
+        self.exp, self.jobs = build_experiment(scratch, configs, default_hook_on_disk)
         self.set_answer("possible")
-        self.jobs = {}
-        for job in self.exp._stages[0].jobs():
-            self.jobs[int(job.name[1:])] = job
         # the controller wants a ComponentState on every node
         self._keep = [wf.ComponentState(j, self.exp.experimentGraph) for j in self.jobs.values()]
         self.controller = control.Controller(self.exp)
@@ -404,3 +421,87 @@ class Instance:
                 "alive": bool(e.isAlive()), "final": final, "shutdown": bool(e.isShutdown), "state": st,
                 "hookCalls": len(calls), "hookFiles": sorted({c["file"] for c in calls}),
                 "hookRestartsArg": [c["restarts"] for c in calls]}
+
+
+# =====================================================================================================================
+# The relaunch window (Restart.tla with Window = TRUE) on the REAL launch / termination pipeline of Engine.run():
+# harness/world_g01.py (growth item G01) runs the real non-repeating Engine on lanes, hop by hop, with a fake Task.
+class PipelineWorld:
+    """Real Experiment (jobs per configuration, hook files) for behaviours that are executed on world_g01.Driver.
+    Nothing is installed permanently: world_g01 / harness.world replace the schedulers only inside `with Driver(..)`."""
+
+    def __init__(self, scratch, configs, default_hook_on_disk):
+        install_config_cache()
+        self.configs = {c["id"]: c for c in configs}
+        self.exp, self.jobs = build_experiment(scratch, configs, default_hook_on_disk)
+        _config_cache.clear()
+        _cache_on[0] = True
+
+    def close(self):
+        import shutil
+        _config_cache.clear()
+        _cache_on[0] = False
+        shutil.rmtree(self.exp.instanceDirectory.location, ignore_errors=True)
+
+    def play(self, cid, evs):
+        """evs: events of the spec (act Launch / Exit / Direct / Kill with reason / answer), starting in the state after
+        Engine.run().  -> (observations: one per event that was executed, note): the projection after every event, taken at
+        the quiescent point (all rx hops delivered).  The events are the environment; everything else is the real engine."""
+        from . import world_g01 as G
+        job = self.jobs[cid]
+        answers = [ev["answer"] for ev in evs if ev["act"] == "Direct"]
+        counters = {"run": 0}
+
+        def factory(job, gen):
+            e = eng.Engine(job, gen)
+            real_run, real_restart = e.run, e.restart
+
+            def run(*a, **k):
+                counters["run"] += 1
+                return real_run(*a, **k)
+
+            def restart(*a, **k):
+                a0 = answers.pop(0)
+                os.environ["C12_HOOK_ANSWER"] = "possible" if a0 == "na" else a0
+                try:
+                    return real_restart(*a, **k)
+                except Exception as x:      # the spec knows which hook defects escape Engine.restart ("raised")
+                    counters["exc"] = repr(x)
+                    return "raised"
+            e.run, e.restart = run, restart
+            return e
+
+        class Drv(G.Driver):
+            def observe(drv):
+                o = G.Driver.observe(drv)
+                calls = list(HOOK_CALLS)
+                del HOOK_CALLS[:]
+                o.update(resub=drv.engine.resubmissionAttempts(), runs=counters["run"], hookCalls=len(calls),
+                         hookFiles=sorted({c["file"] for c in calls}), hookRestartsArg=[c["restarts"] for c in calls])
+                return o
+        hist = ["Run"]
+        for ev in evs:
+            if ev["act"] == "Launch":
+                hist.append("Fire:ok")
+            elif ev["act"] == "Exit":
+                hist.append("Exit:" + ev["reason"])
+            elif ev["act"] == "Direct":
+                hist.append("Restart")
+            elif ev["act"] == "Kill":
+                hist.append("Kill")
+            else:
+                raise RuntimeError("event %r cannot be played on the engine pipeline" % (ev,))
+        del HOOK_CALLS[:]
+        with Drv(job, engine_factory=factory) as d:
+            obs = d.replay(hist, "fifo")
+            note = {"not_enabled": d.not_enabled, "item_errors": list(d.item_errors)}
+        if getattr(d, "threads", None):
+            raise RuntimeError("the engine pipeline created threads: %r" % (d.threads,))
+        out = []
+        for o in obs[2:]:          # obs[0]: before run(), obs[1]: after run() = the initial state of the specification
+            out.append({"code": o["rcode"] if o["rcode"] != "-" else "none", "restarts": o["restarts"], "resub": o["resub"],
+                        "runs": o["runs"], "launched": o["nlaunch"], "alive": o["alive"], "exitReason": o["reason"],
+                        "hookCalls": o["hookCalls"], "hookFiles": o["hookFiles"], "hookRestartsArg": o["hookRestartsArg"]})
+        first = obs[1] if len(obs) > 1 else None
+        note["initial"] = first and {"alive": first["alive"], "launched": first["nlaunch"], "runs": first["runs"]}
+        return out, note
